@@ -12,5 +12,5 @@ CONFIG = dict(
           "query order. Non-trivial = the DAG has a validator whose fork is visible to some events but not to others, and both true and "
           "false answers occur; distinct by DAG hash."),
     assumptions=["events are indexed parents-first and flushed one by one, as IndexedLachesis does"],
-    units=[dict(test="TestC05ForklessCause", quick=1500, thorough=240000, shards=16)],
+    units=[dict(test="TestC05ForklessCause", quick=5000, thorough=240000, shards=16)],
 )
